@@ -122,9 +122,11 @@ func runC06(c *fw.Ctx) {
 		}
 	}
 	// registrations by rich owners (exact fee, DeliverTx does not check amounts)
-	for _, ow := range owners[:3] {
-		e.Deliver(g.plan(ow, sdk.NewCoins(sdk.NewCoin(wd, math.NewIntFromUint64(o.Wrk.FeeRegister))), g.WrkRegisterMsg(ow)))
-		e.Deliver(g.plan(ow, sdk.NewCoins(sdk.NewCoin(bd, math.NewIntFromUint64(o.Beacon.FeeRegister))), g.BeaconRegisterMsg(ow)))
+	for rep := 0; rep < 2; rep++ { // two of each, so that one owner can address several registrations in one tx
+		for _, ow := range owners[:3] {
+			e.Deliver(g.plan(ow, sdk.NewCoins(sdk.NewCoin(wd, math.NewIntFromUint64(o.Wrk.FeeRegister))), g.WrkRegisterMsg(ow)))
+			e.Deliver(g.plan(ow, sdk.NewCoins(sdk.NewCoin(bd, math.NewIntFromUint64(o.Beacon.FeeRegister))), g.BeaconRegisterMsg(ow)))
+		}
 	}
 	e.EndBlock()
 
@@ -268,6 +270,38 @@ func runC06(c *fw.Ctx) {
 			case *beacontypes.MsgRecordBeaconTimestamp:
 				msgs = append(msgs, &beacontypes.MsgRecordBeaconTimestamp{BeaconId: x.BeaconId, Hash: g.hash(64), SubmitTime: x.SubmitTime + 1, Owner: x.Owner})
 				shape = append(shape, "Brec")
+			}
+		}
+		// interleaved storage purchases for two registrations of one owner (A, B, A / A, B, B, A, with
+		// different slot counts): the fee is the sum over ALL of them, in whatever order they appear
+		if r.Chance(7) {
+			var ws []uint64
+			for _, w := range obs.Wrk {
+				if ownerHex(w.Owner) == ownerHex(owner.Addr.String()) {
+					ws = append(ws, w.WrkchainId)
+				}
+			}
+			var bs []uint64
+			for _, b := range obs.Beacons {
+				if ownerHex(b.Owner) == ownerHex(owner.Addr.String()) {
+					bs = append(bs, b.BeaconId)
+				}
+			}
+			pat := [][]int{{0, 1, 0}, {0, 1, 1, 0}, {1, 0, 1}, {0, 1, 0, 1}}[r.Intn(4)]
+			if len(ws) >= 2 && (len(bs) < 2 || r.Bool()) {
+				msgs, shape = nil, nil
+				for _, k := range pat {
+					msgs = append(msgs, &wrkchaintypes.MsgPurchaseWrkChainStateStorage{WrkchainId: ws[k], Number: uint64(r.Range(1, 5)), Owner: owner.Addr.String()})
+					shape = append(shape, "Wbuy")
+				}
+				shape = append(shape, "interleaved")
+			} else if len(bs) >= 2 {
+				msgs, shape = nil, nil
+				for _, k := range pat {
+					msgs = append(msgs, &beacontypes.MsgPurchaseBeaconStateStorage{BeaconId: bs[k], Number: uint64(r.Range(1, 5)), Owner: owner.Addr.String()})
+					shape = append(shape, "Bbuy")
+				}
+				shape = append(shape, "interleaved")
 			}
 		}
 		for _, m := range msgs {
